@@ -92,6 +92,11 @@ class Injector:
         return self.local
 
 
+def stuck_sleep(x):
+    time.sleep(60)
+    return x
+
+
 def thread_case(inputs, plan, pipe=None):
     """a persistent thread worker fed `inputs`, then released; the exception lands per `plan`."""
     from pyworkers.persistent_thread import PersistentThreadWorker
@@ -197,6 +202,9 @@ def forwarder_cases(res, tier, seed):
                             res.violation(dict(case, features=[]), f'the consumer of the results pipe sees {got}, not a prefix of {vals}')
                         elif not ended:
                             res.violation(dict(case, features=[]), f'neither an end marker nor EOF reaches the consumer of the results pipe (frontend thread: {crashed or "ended"})')
+                        elif not any(m[0] == 'OEnd' for m in out):
+                            res.violation(dict(case, features=[]), 'no end marker reaches the consumer of the results pipe, only its closing - which a consumer blocked on the default '
+                                          'in-memory results queue cannot observe: next_result() would wait for ever')
                         for end in ('parent_end', 'child_end'):
                             try:
                                 getattr(w._results_pipe, end).close()
@@ -327,6 +335,39 @@ def main(tier, seed, replay=None):
                     why = why or f'{kind} worker still alive after {how}'
                 if why:
                     res.violation(dict(kind=kind, how=how, features=[]), why, finding_matcher=known)
+        # a consumer that is ALREADY waiting for the next result when the worker is ended by force (the target cannot be
+        # interrupted): it must be released - queue.Empty - not left waiting for ever
+        import threading
+        mkb = {'thread': None, 'process': lambda: PersistentProcessWorker(stuck_sleep), 'remote': lambda: PersistentRemoteWorker(stuck_sleep, host=server.addr)}
+        for kind in ('process', 'remote'):
+            for how in ('terminate-force', 'sigkill'):
+                w = mkb[kind]()
+                w.enqueue(1)
+                time.sleep(0.5)
+                out = {}
+
+                def consume():
+                    try:
+                        out['r'] = ('value', w.next_result())
+                    except queue.Empty:
+                        out['r'] = 'Empty'
+                    except BaseException as e:   # noqa
+                        out['r'] = type(e).__name__
+                t = threading.Thread(target=consume, daemon=True)
+                t.start(); time.sleep(0.3)
+                if how == 'sigkill':
+                    os.kill(w.pid, signal.SIGKILL)
+                else:
+                    w.terminate(timeout=1, force=True)
+                t.join(10)
+                res.count('real:' + kind + ':blocked-consumer-' + how); res.case(('real', kind, 'blocked-consumer', how), nontrivial=True)
+                if out.get('r') != 'Empty':
+                    res.violation(dict(kind=kind, how='consumer blocked in next_result() while the worker is ended: ' + how, features=[]),
+                                  f'the consumer got {out.get("r", "nothing - it is still blocked 10 s after the worker died")} instead of queue.Empty', finding_matcher=known)
+                try:
+                    w.terminate(timeout=1, force=True)
+                except Exception:
+                    pass
     finally:
         server.terminate(force=True)
     forwarder_cases(res, tier, seed)
